@@ -45,7 +45,7 @@ def expected_printouts_text(printouts):
     return s
 
 
-def check_member(mdir, *, variables, errors, printouts, lines, unmatched, valid, completed, bad, tag="", aborted=False):
+def check_member(mdir, *, variables, errors, printouts, lines, unmatched, valid, completed, bad, tag="", aborted=False, meta_expect=None):
     """compare one member directory with the in-memory truth. `lines` None = not a collecting run (no data.csv expected)."""
     for fn in ("meta.json", "vars.json", "errors.json", "manifest.json"):
         if not os.path.isfile(os.path.join(mdir, fn)):
@@ -59,6 +59,15 @@ def check_member(mdir, *, variables, errors, printouts, lines, unmatched, valid,
     except ValueError as e:
         bad(f"{tag}a json file is not loadable", str(e)[:80], "valid json")
         return
+    if meta_expect:
+        rt = meta.get("runtime_data") or {}
+        for k, want in meta_expect.get("runtime", {}).items():
+            if rt.get(k) != want:
+                bad(f"{tag}meta.json runtime_data.{k}", rt.get(k), want)
+        if "metadata" in meta_expect and meta.get("metadata") != jimage(meta_expect["metadata"]):
+            bad(f"{tag}meta.json metadata != the csvpath's metadata", meta.get("metadata"), jimage(meta_expect["metadata"]))
+        if "identity" in meta_expect and meta.get("identity") != meta_expect["identity"]:
+            bad(f"{tag}meta.json identity", meta.get("identity"), meta_expect["identity"])
     if vs != jimage(variables):
         bad(f"{tag}vars.json != final variables", vs, jimage(variables))
     got_e = [(e.get("line_count"), e.get("error")) for e in es]
